@@ -31,6 +31,16 @@ def hook_raises(endpoint, cert):
     raise RuntimeError('sim: access hook failed')
 
 
+def hook_raises_attr(endpoint, cert):
+    return cert.get_subject().commonName == endpoint  # AttributeError: the hook uses the wrong certificate API / cert is None
+
+
+def hook_raises_import(endpoint, cert):
+    import sim_policy_helper_that_is_not_installed  # noqa: F401  (ImportError inside the hook)
+
+    return True
+
+
 def hook_deny(endpoint, cert):
     return False
 
@@ -65,13 +75,21 @@ class FeWorld(fsm.FsmWorld):
         ch, d = self.ch, self.dir
         # --- configuration owned by the simulator
         self.certs_configured = bool(ch.choose('fe.client_certs', 2)) if self.cfg.get('client_certs') is None else self.cfg['client_certs']
-        self.hook = ['default', 'default', 'raising', 'deny', 'allow'][ch.choose('fe.hook', 5)] if self.cfg.get('hook') is None else self.cfg['hook']
+        self.hook = (['default', 'default', 'raising', 'deny', 'allow', 'raising_attr', 'raising_import', 'missing'][ch.choose('fe.hook', 8)]
+                     if self.cfg.get('hook') is None else self.cfg['hook'])
         self.own_site = bool(ch.choose('fe.own_site', 2))
         sec._certs.clear()
         if self.certs_configured:
             sec._certs.append(object())
         ctx.sanction_override = {'default': 'dawgie.security.is_sanctioned', 'raising': 'worlds.fe.hook_raises', 'deny': 'worlds.fe.hook_deny',
-                                 'allow': 'worlds.fe.hook_allow'}[self.hook]
+                                 'allow': 'worlds.fe.hook_allow', 'raising_attr': 'worlds.fe.hook_raises_attr', 'raising_import': 'worlds.fe.hook_raises_import',
+                                 'missing': 'worlds.fe.hook_that_was_misspelt'}[self.hook]
+        # plain HTTP front end (no TLS identity of its own) with client certificates nevertheless configured is a legal, if odd, deployment
+        self.tls = True if self.cfg.get('tls') is None and not ch.flip('fe.plain_http', 1, 5) else bool(self.cfg.get('tls'))
+        if not self.tls:
+            sec._myself.clear()
+            self.cfg['workers'] = 0  # the farm port would ask for the legacy handshake; this world is about the front end
+            self.probes['plain_http_front_end'] += 1
         ctx.identity_override = 'dawgie.security.fetch_identity'
         # --- directory trees
         fe = os.path.join(d, 'fe')
@@ -180,13 +198,13 @@ class FeWorld(fsm.FsmWorld):
             self.probes['request_without_certificate'] += 1
         tag = f'{method} {uri} cert={"yes" if cert is not None else "no"} certs_configured={self.certs_configured} hook={self.hook}'
         self.op(f'fe: {tag} -> handler {"ENTERED" if entered else "not entered"}')
-        if self.hook == 'raising':
+        if self.hook in ('raising', 'raising_attr', 'raising_import', 'missing'):
             self.probes['request_with_raising_hook'] += 1
             if entered:
                 self.violate('C19', 'hook_error_allowed_access', uri, f'the access hook raised but the handler of {uri} was entered ({tag})')
         if self.hook == 'deny' and entered:
             self.violate('C19', 'hook_denial_ignored', uri, f'the access hook denied but the handler of {uri} was entered ({tag})')
-        if stranger and self.hook in ('default', 'raising', 'deny'):
+        if stranger and self.hook != 'allow':
             if uri in PROTECTED:
                 self.probes['stranger_at_protected_endpoint'] += 1
                 if entered:
